@@ -81,6 +81,20 @@ impl VerifFetcher {
             }
         }
     }
+    /// The opposite of `age`: every stored deadline moves `by` into the future. The harness uses it to cancel
+    /// the wall-clock time that passed while a copy of the fetcher sat in its search frontier.
+    pub fn unage(&mut self, by: Duration) {
+        for d in self.0.to_be_fetched.values_mut() {
+            if let Some(n) = d.checked_add(by) {
+                *d = n;
+            }
+        }
+        for (_, d) in self.0.on_going_fetches.values_mut() {
+            if let Some(n) = d.checked_add(by) {
+                *d = n;
+            }
+        }
+    }
 }
 
 /// (queued, in flight)
